@@ -177,6 +177,12 @@ class UninitRead(Exception):
     """a member is read before its constructor initialiser ran (declaration order)"""
 
 
+class LockTag:
+    """std::defer_lock / std::try_to_lock / std::adopt_lock"""
+    def __init__(self, name: str):
+        self.name = name
+
+
 class PathAbort(Exception):
     """infeasible path (internal)"""
 
@@ -400,8 +406,12 @@ class Machine:
 
     def _log_impl(self, level):
         def impl(machine, args):
-            machine.log.messages.append((level, str(args[0]) if args else ''))
-            machine.trace.append(('log', level, str(args[0]) if args else ''))
+            msg = args[0] if args else ''
+            if isinstance(msg, Loc):
+                msg = machine.load(msg)
+            machine.log.messages.append((level, str(msg)))
+            machine.trace.append(('log', level, str(msg)))
+            machine.on_log(level, str(msg))
             return None
         return impl
 
@@ -512,8 +522,10 @@ class Machine:
             return
         v = loc.v
         try:
-            if isinstance(v, UniquePtrV) and v.ptr is not None:
-                self.call_deleter(v)
+            if isinstance(v, UniquePtrV):
+                if v.ptr is not None:
+                    self.call_deleter(v)
+                self.destroy_deleter(v)
             elif isinstance(v, UniqueLockV) and v.owns:
                 self.unlock(v)
         finally:
@@ -530,11 +542,16 @@ class Machine:
             if fn is None:
                 raise Unsupported('deleter without operator()')
             self.call_function(fn, Loc(d, 'deleter'), [PtrV(up.ptr)])
-            # the deleter object (holding the unique_lock) dies too
-            lock_loc = d.fields.get('lock')
-            if lock_loc is not None and isinstance(lock_loc.v, UniqueLockV) and lock_loc.v.owns:
-                self.unlock(lock_loc.v)
         up.ptr = None
+
+    def destroy_deleter(self, up: UniquePtrV):
+        """the unique_ptr itself dies: its deleter object dies with it, and so do the deleter's members (a
+        unique_lock member releases a mutex it still owns); reset() alone does not do this"""
+        d = up.deleter
+        if isinstance(d, StructV):
+            for sub in d.fields.values():
+                if isinstance(sub, Loc) and isinstance(sub.v, UniqueLockV) and sub.v.owns:
+                    self.unlock(sub.v)
 
     def lock(self, ul: UniqueLockV):
         m: MutexV = self.load(ul.mutex)
@@ -551,6 +568,32 @@ class Machine:
         m.events.append('unlock')
         ul.owns = False
         self.trace.append(('mutex', 'unlock'))
+
+    # ---- dispatcher (overridden by the threaded machine) -----------------------------------------------
+    def do_shell(self, pump: 'PumpV', fv: 'FuncV'):
+        """dzn::shell: run the closure in the dispatcher's context, block until done, hand back its result"""
+        pump.in_dispatcher += 1
+        self.trace.append(('shell-enter', pump.label))
+        try:
+            return self.call_funcv(fv, [], 'dzn::shell')
+        finally:
+            pump.in_dispatcher -= 1
+            pump.executed += 1
+            self.trace.append(('shell-leave', pump.label))
+
+    def do_post(self, pump: 'PumpV', fv: 'FuncV'):
+        """dzn::pump::operator(): queue the closure for the dispatcher and return"""
+        pump.queue.append(fv)
+        self.trace.append(('post', pump.label))
+
+    def note_access(self, loc, write: bool):
+        """hook for shared-state tracking (threaded machine)"""
+
+    def on_log(self, level: str, msg: str):
+        """hook: the user's log sink received a message"""
+
+    def before_external(self, ext):
+        """hook: an instrumented handler / log sink is about to run (observable event)"""
 
     def bind_params(self, fn: Func, args: List[Any]):
         fr = self.frame()
@@ -608,6 +651,7 @@ class Machine:
         if fv.kind == 'symbolic':
             raise Unsupported('call of a symbolically-bound slot')
         if fv.kind == 'external':
+            self.before_external(fv.target)
             return fv.target.impl(self, args)
         clo: Closure = fv.target
         self.push_frame(clo.run, clo.this_ptr, clo.label)
@@ -643,8 +687,17 @@ class Machine:
     def exec_stmt(self, node: dict):
         kind = node.get('kind')
         if kind == 'CompoundStmt':
-            for c in node.get('inner', []):
-                self.exec_stmt(c)
+            fr = self.frame()
+            mark = len(fr.locals)
+            try:
+                for c in node.get('inner', []):
+                    self.exec_stmt(c)
+            finally:
+                # block scope: automatic variables declared in this block die here, in reverse order
+                dying = fr.locals[mark:]
+                del fr.locals[mark:]
+                for loc in reversed(dying):
+                    self.destroy(loc)
         elif kind == 'DeclStmt':
             for c in node.get('inner', []):
                 self.exec_decl(c)
@@ -653,15 +706,19 @@ class Machine:
             if not inner:
                 raise ReturnEx(None)
             expr = inner[0]
-            fr_label = self.frame().label
+            mark = len(self.frame().temps)
             if expr.get('valueCategory') in ('lvalue', 'xvalue') and self._returns_reference():
-                raise ReturnEx(self.lv(expr))
-            v = self.rv(expr)
+                v = self.lv(expr)
+            else:
+                v = self.rv(expr)
+            self.end_full_expression(mark)
             raise ReturnEx(v)
         elif kind == 'IfStmt':
             inner = [c for c in node.get('inner', []) if 'kind' in c]
-            cond = self.rv(inner[0])
-            if self.decide(self.truth(cond)):
+            mark = len(self.frame().temps)
+            cond = self.truth(self.rv(inner[0]))
+            self.end_full_expression(mark)
+            if self.decide(cond):
                 self.exec_stmt(inner[1])
             elif len(inner) > 2:
                 self.exec_stmt(inner[2])
@@ -676,17 +733,22 @@ class Machine:
         # decided by the callee's declared return type; stored on the frame by call sites that need it
         return getattr(self.frame(), 'ret_ref', False)
 
+    def end_full_expression(self, mark: int):
+        """temporaries materialised since `mark` die (reverse order); lifetime-extended ones are locals"""
+        fr = self.frame()
+        dying = fr.temps[mark:]
+        del fr.temps[mark:]
+        for loc in reversed(dying):
+            self.destroy(loc)
+
     def rv_or_void(self, node: dict):
         cat = node.get('valueCategory')
+        mark = len(self.frame().temps)
         if cat in ('lvalue', 'xvalue'):
             self.lv(node)
         else:
             self.rv(node)
-        # temporaries of a full expression die here
-        fr = self.frame()
-        for loc in reversed(fr.temps):
-            self.destroy(loc)
-        fr.temps = []
+        self.end_full_expression(mark)
 
     def exec_decl(self, node: dict):
         kind = node.get('kind')
@@ -694,8 +756,10 @@ class Machine:
             vtype = node.get('type', {}).get('qualType', '')
             init = next((c for c in node.get('inner', []) if 'kind' in c), None)
             fr = self.frame()
+            mark = len(fr.temps)
             if vtype.rstrip().endswith('&'):
                 fr.vars[node['id']] = self.lv(init)
+                self.end_full_expression(mark)
                 return
             if init is None:
                 v = self.default_value(node.get('type', {}).get('desugaredQualType') or vtype, node.get('name'))
@@ -706,6 +770,7 @@ class Machine:
             loc = Loc(v, node.get('name', 'var'))
             fr.locals.append(loc)
             fr.vars[node['id']] = loc
+            self.end_full_expression(mark)
         elif kind in ('TypedefDecl', 'TypeAliasDecl', 'StaticAssertDecl', 'UsingDecl'):
             return
         else:
@@ -780,6 +845,8 @@ class Machine:
             v = self.rv(child)
             if isinstance(v, Loc):
                 return v
+            if node.get('storageDuration') == 'automatic':      # lifetime extended by a reference variable
+                return self.new_local(v, 'materialized (lifetime-extended)')
             return self.new_temp(v, 'materialized')
         if kind == 'DeclRefExpr':
             ref = node.get('referencedDecl', {})
@@ -788,6 +855,9 @@ class Machine:
                 for fr in (self.frame(),):
                     if ref['id'] in fr.vars:
                         return fr.vars[ref['id']]
+                if ref.get('name') in ('defer_lock', 'try_to_lock', 'adopt_lock') and \
+                        '_lock_t' in ref.get('type', {}).get('qualType', ''):
+                    return Loc(LockTag(ref['name']), ref['name'])
                 raise Unsupported(f'unbound variable {ref.get("name")}')
             raise Unsupported(f'lvalue DeclRefExpr to {rk}')
         if kind == 'MemberExpr':
@@ -1045,6 +1115,8 @@ class Machine:
         if len(_args_cache) == 1 and kind in ('string', 'record', 'scalar', 'std-other'):
             # copy/move construction of opaque symbolic data (event arguments)
             pv = self.load(_args_cache[0]) if isinstance(_args_cache[0], Loc) else _args_cache[0]
+            if isinstance(pv, LockTag):
+                return pv
             if isinstance(pv, Sym):
                 return pv
         return self._construct_with_args(node, t, kind, arg_nodes, _args_cache)
@@ -1072,7 +1144,18 @@ class Machine:
             val = self.load(src) if isinstance(src, Loc) else src
             if isinstance(val, MutexV):
                 ul = UniqueLockV(src, False)
-                self.lock(ul)
+                tag = None
+                if len(args) > 1:
+                    tag = self.load(args[1]) if isinstance(args[1], Loc) else args[1]
+                    if not isinstance(tag, LockTag):
+                        raise Unsupported('unique_lock(mutex, ' + type(tag).__name__ + ')')
+                if tag is None:
+                    self.lock(ul)
+                elif tag.name == 'adopt_lock':
+                    ul.owns = True
+                elif tag.name == 'try_to_lock':
+                    if not val.locked:
+                        self.lock(ul)
                 return ul
             if isinstance(val, UniqueLockV):          # move construction
                 out = UniqueLockV(val.mutex, val.owns)
